@@ -7,6 +7,7 @@ import (
 	"encoding/json"
 	"fmt"
 	"os"
+	"reflect"
 	"runtime"
 	"strings"
 )
@@ -78,6 +79,7 @@ func verifReached(label string)                         {}
 func verifBarrier(on bool)                              {}
 func verifInput(b []byte)                               {}
 func verifJoin()                                        {}
+func verifFreeze(root interface{})                      {}
 func verifPreemptBound(n int)                           {}
 func verifPoolND(on bool)                               {}
 func verifSameBacking(a, b []byte) bool                 { return cap(a) > 0 && cap(b) > 0 && &a[:cap(a)][cap(a)-1] == &b[:cap(b)][cap(b)-1] }
@@ -110,4 +112,81 @@ func verifChoose(n int) int {
 	c := verifChoices[0]
 	verifChoices = verifChoices[1:]
 	return c
+}
+
+// verifDeepEqual: exported fields only, slices by content (nil == empty),
+// funcs/maps/chans ignored - the same rules as the engine's intrinsic.
+func verifDeepEqual(a, b interface{}) bool {
+	if a == nil || b == nil {
+		return a == nil && b == nil
+	}
+	va, vb := reflect.ValueOf(a), reflect.ValueOf(b)
+	if va.Type() != vb.Type() {
+		return false
+	}
+	return verifDeq(va, vb, 0)
+}
+
+func verifDeq(a, b reflect.Value, depth int) bool {
+	if depth > 8 {
+		return true
+	}
+	switch a.Kind() {
+	case reflect.Bool:
+		return a.Bool() == b.Bool()
+	case reflect.Int, reflect.Int8, reflect.Int16, reflect.Int32, reflect.Int64:
+		return a.Int() == b.Int()
+	case reflect.Uint, reflect.Uint8, reflect.Uint16, reflect.Uint32, reflect.Uint64, reflect.Uintptr:
+		return a.Uint() == b.Uint()
+	case reflect.Float32, reflect.Float64:
+		return a.Float() == b.Float()
+	case reflect.String:
+		return a.String() == b.String()
+	case reflect.Ptr:
+		if a.IsNil() || b.IsNil() {
+			return a.IsNil() && b.IsNil()
+		}
+		return verifDeq(a.Elem(), b.Elem(), depth+1)
+	case reflect.Slice:
+		if a.Len() != b.Len() {
+			return false
+		}
+		for i := 0; i < a.Len(); i++ {
+			if !verifDeq(a.Index(i), b.Index(i), depth+1) {
+				return false
+			}
+		}
+		return true
+	case reflect.Array:
+		for i := 0; i < a.Len(); i++ {
+			if !verifDeq(a.Index(i), b.Index(i), depth+1) {
+				return false
+			}
+		}
+		return true
+	case reflect.Struct:
+		t := a.Type()
+		for i := 0; i < t.NumField(); i++ {
+			f := t.Field(i)
+			if f.PkgPath != "" && !f.Anonymous {
+				continue
+			}
+			if f.Type.Name() == "BaseLayer" {
+				continue
+			}
+			if !verifDeq(a.Field(i), b.Field(i), depth+1) {
+				return false
+			}
+		}
+		return true
+	case reflect.Interface:
+		if a.IsNil() || b.IsNil() {
+			return a.IsNil() && b.IsNil()
+		}
+		if a.Elem().Type() != b.Elem().Type() {
+			return false
+		}
+		return verifDeq(a.Elem(), b.Elem(), depth+1)
+	}
+	return true
 }
